@@ -7,8 +7,8 @@ Open Scope N_scope.
 
 (* a request is refused exactly when it is not well addressed (protocol version when opening, allowed transport, live session,
    transport of the session or a WebSocket upgrade of it, numeric JSONP index, known method) *)
-Theorem c12_admitted_iff_well_addressed : forall cfg q v, refused (decide cfg q v) = negb (well_addressed cfg q v).
-Proof. exact admitted_iff_well_addressed. Qed.
+Theorem c12_let_in_iff_well_addressed : forall cfg q v, refused (decide cfg q v) = negb (well_addressed cfg q v).
+Proof. exact let_in_iff_well_addressed. Qed.
 
 (* refusals are 400; 405 only, and then always, for other methods *)
 Theorem c12_refusal_status : forall cfg q v x, decide cfg q v = DRefuse x -> x = R400 \/ x = R405.
@@ -26,7 +26,7 @@ Theorem c12_answer_no_effect : forall me r x s,
   outof (answer me r x s) = [OResp r x] /\ store (stof (answer me r x s)) = store s /\ table (stof (answer me r x s)) = table s.
 Proof. exact answer_out. Qed.
 
-Print Assumptions c12_admitted_iff_well_addressed.
+Print Assumptions c12_let_in_iff_well_addressed.
 Print Assumptions c12_refusal_status.
 Print Assumptions c12_405_only_other_methods.
 Print Assumptions c12_refused_emits_only_refusal.
